@@ -149,7 +149,7 @@ BATCH = Stage(
     family="batch",
     mc={"quick": [("MC_Batch.tla", "MC_Batch_cmpp.cfg", "pass"), ("MC_Batch.tla", "MC_Batch_smpp.cfg", "pass"),
                   ("MC_Batch.tla", "MC_Batch_neg.cfg", "fail")],
-        "thorough": [("MC_Batch.tla", "MC_Batch_cmpp_t.cfg", "pass"), ("MC_Batch.tla", "MC_Batch_smpp.cfg", "pass"),
+        "thorough": [("MC_Batch.tla", "MC_Batch_cmpp_t.cfg", "pass"), ("MC_Batch.tla", "MC_Batch_smpp_t.cfg", "pass"),
                      ("MC_Batch.tla", "MC_Batch_neg.cfg", "fail")]},
     parts={"quick": [("", 4)], "thorough": [("", 8)]},
     trace=("Trace_Batch.tla", "Trace_Batch.cfg"),
@@ -312,7 +312,7 @@ CHECKS = {
                   "permutation and of repeated real Build calls; the builder object across requests as a second state machine "
                   "(Builder.tla): TLC exhaustive over setter / Build histories, TLC-generated histories replayed on one real builder "
                   "and validated action by action",
-        level_text="TLC explores every candidate list of <=2 (thorough CMPP 3) entries over the valid codings and an invalid "
+        level_text="TLC explores every candidate list of <=2 (thorough: CMPP 4, SMPP 3) entries over the valid codings and an invalid "
                    "number, every origin, every can/parts environment, every order of the per-candidate runs, with the sort "
                    "modelled as what an unstable sort guarantees: result = the cheapest usable coding (hence deterministic), "
                    "UCS-2 fallback, error only when nothing can; equal priorities are the negative configuration; the comparator "
@@ -338,7 +338,7 @@ CHECKS = {
                   "codec state machine over scaled alphabets + TLC validation of recorded encode/decode calls octet for octet, "
                   "interval-classified sweep of all scalar values",
         level_text="TLC checks refusal exactly off the repertoire and inversion (with the two packed end-of-message ambiguities, "
-                   "exact outside them) for all strings of <=4 (thorough 6) characters over alphabets with one-unit, multi-unit "
+                   "exact outside them) for all strings of <=4 (thorough 7) characters over alphabets with one-unit, multi-unit "
                    "and foreign characters for ASCII, UCS-2, GSM-7 unpacked and packed (decoder = the block unpacker without "
                    "septet count).  Real codecs: random strings biased to each repertoire and its edges are validated octet for "
                    "octet (ASCII, UCS-2, GSM-7) or by inversion/refusal (Latin-1, GB18030 with the U+E000..U+E864 carve-out); the "
@@ -356,7 +356,7 @@ CHECKS = {
         technique="TLA+ denotation of SMPP time strings with a civil-calendar function (Validity.tla): TLC exhaustive over all "
                   "durations at scaled units + TLC validation of recorded ToValidatePeriod calls",
         level_text="TLC checks that the relative formatter's output denotes exactly the duration for every duration up to the "
-                   "field capacity + 2 at scaled units (thorough: every second of three real days), days reduced modulo a "
+                   "field capacity + 2 at scaled units (thorough: every second of the 31 real days the relative form can express), days reduced modulo a "
                    "constant being the negative configuration; the calendar function is ASSUMEd on leap-year anchors.  Real "
                    "calls over every unit boundary +-1 s (59/60 s, 24 h, 31 d, 100 d, 365 d, 100 years), fractional, compound, "
                    "negative and unparsable duration strings, both forms, now instants across 2000..2099 in several zones: TLC "
@@ -408,7 +408,7 @@ CHECKS = {
         technique="TLA+ session state machine over the command tables of Layouts.tla (Session.tla): TLC exhaustive over all "
                   "interleavings of outstanding requests + TLC validation of recorded real exchanges and dispatcher sweeps",
         level_text="TLC checks that every response in flight matches exactly one outstanding request for all request command "
-                   "ids of the five packages, boundary sequence identifiers and <=2 (thorough 3) outstanding requests in every "
+                   "ids of the five packages, boundary sequence identifiers and <=2 (thorough 5) outstanding requests in every "
                    "interleaving, plus table consistency (response = request + 2^31, no shared ids); a bind response fixed to "
                    "'transceiver' is the negative configuration.  Real exchanges (every request type, every boundary sequence "
                    "number, all three bind flavours, SGIP with three distinct sequence words, several outstanding requests "
@@ -429,7 +429,7 @@ CHECKS = {
                   "as an object (Container.tla): TLC exhaustive over Put histories and serialisation orders, TLC-generated histories "
                   "replayed on one real smpp.TLVs / smgp.Options and validated action by action",
         level_text="TLC checks NoFabrication, exactness on well-formed sequences, loop progress and termination for the strict and "
-                   "the lenient parser loop over all octet strings of length <=7 (thorough 9) over {0,1,2}, and that the serialiser "
+                   "the lenient parser loop over all octet strings of length <=7 (thorough 12) over {0,1,2}, and that the serialiser "
                    "never panics and truncates consistently (size arithmetic wrapping at 8 bits is the negative configuration).  "
                    "On the real code: random and boundary sets (0..32 parameters, value lengths 65530..65536, 70000), every "
                    "permutation of emission order for <=4 parameters assembled from real single-triplet serialisations, all strings "
@@ -444,7 +444,7 @@ CHECKS = {
         technique="TLA+ decoder model with allocation meter and loop-progress property (MC_Decode.tla) + TLC judgement of "
                   "observed outcomes of every real decoder/parser on specification-shaped corruptions (Trace_Wire.tla, "
                   "MandatoryComplete from Wire/Layouts)",
-        level_text="TLC explores a mandatory-part + triplet-loop decoder over all octet strings of length <=6 (thorough 8) over "
+        level_text="TLC explores a mandatory-part + triplet-loop decoder over all octet strings of length <=6 (thorough 9) over "
                    "{0,1,2,255}: Bounded allocation, loop Progress, termination, ShortIsError; a loop that consumes nothing and "
                    "allocate-before-check are negative configurations.  Every real PDU decoder, dispatcher and auxiliary parser is "
                    "then run on every truncation point of canonical images, every length/count octet substituted by "
@@ -520,7 +520,7 @@ CHECKS = {
         stages=[SPLIT, GATEWAY],
         technique="TLA+ relation between a text's unit stream and the produced parts (Split.tla/Text.tla): TLC exhaustive on "
                   "the splitter loops as step machines at scaled capacities + TLC validation of recorded real splits",
-        level_text="TLC checks Preserves/TotalOK/SizeOK/WholeOK/MinimalOK/termination for every text of <=9 (thorough 13) "
+        level_text="TLC checks Preserves/TotalOK/SizeOK/WholeOK/MinimalOK/termination for every text of <=9 (thorough 17) "
                    "characters (1-unit and escape-pair characters) on the greedy reference and the repaired packed loop; the packed "
                    "loop as written before the fix and the coding-agnostic fixed-width cut are negative configurations.  Every "
                    "recorded real split is then judged by TLC: the payloads (headers removed, packed parts unpacked with the "
